@@ -17,6 +17,7 @@ structure Node where
   cid : String := ""                 -- cluster id stored in the data directory
   lease : Option Nat := none         -- id of the lease the node believes to hold
   pctx : Option Bool := none         -- a primary-scoped context taken by the suite: still alive?
+  impCtx : Option (Bool × String) := none  -- an import request waiting for the write lock: (its primary-scoped context is alive, image)
 
 structure Cl where
   nodes : Array Node := #[]
@@ -68,7 +69,8 @@ def Node.lnode (n : Node) : Lease.LNode := { up := n.up, cand := n.cand, cid := 
 /-- a node stops acting as primary: contexts are cancelled, the databases recover -/
 def Node.stepDown (n : Node) : Node :=
   { n with lease := none, eng := recoverEng { n.eng with primary := false },
-           pctx := n.pctx.map fun _ => false }
+           pctx := n.pctx.map fun _ => false,
+           impCtx := n.impCtx.map fun (_, d) => (false, d) }
 
 /-- the lease side of settling: every node that acts as primary renews (and steps down if its
     lease is gone or the service cannot be reached); then the allowed node takes a free lease -/
@@ -215,6 +217,34 @@ def haltOp (c : Cl) (k id : String) : Cl × String :=
             else (releaseHalt c, "err"))
    | _, _ => (c, "bad-op"))
 
+/-- `n <k> <engine op>`: an operation of node k's application (or of the suite) on that node -/
+def nodeOp (c : Cl) (k : String) (rest : List String) : Cl × String :=
+  if rest.isEmpty then (c, "bad-op") else
+  (match k.toNat? >>= fun k => c.nodes[k]?.map fun n => (k, n) with
+   | none => (c, "bad-op")
+   | some (k, n) =>
+     if !n.up then (c, "down") else
+     -- would the primary accept a transaction forwarded by this node now?
+     let okRemote : Bool := match c.holder, c.halt, n.remoteId with
+       | some p, some (hp, hid, _, _, _), some rid => p == hp && hid == rid && n.net
+       | _, _, _ => false
+     let (e, o) := EngineD.step { n.eng with remoteOK := okRemote } (" ".intercalate rest)
+     let e := stamp e n.ident
+     let c := c.setNode k { n with eng := e }
+     -- a commit under the remote halt lock was sent to the primary before it was finalised
+     if n.eng.remoteHalt && e.ltx.length > n.eng.ltx.length then
+       match c.holder, e.ltx.getLast? with
+       | some p, some f =>
+         (match c.nodes[p]? with
+          | some pn =>
+            let pe := match receiveTx pn.eng f with | .ok x => x | .error (x, _) => x
+            (settle (c.setNode p { pn with eng := pe }), o)
+          | none => (c, o))
+       | _, _ => (c, o)
+     -- a commit on the primary is streamed to the connected replicas at once
+     else if c.holder == some k && (e.posTxid != n.eng.posTxid || e.posChk != n.eng.posChk) && c.pending.isNone then (settle c, o)
+     else (c, o))
+
 def step (c : Cl) (line : String) : Cl × String :=
   let f := words line
   match f with
@@ -228,32 +258,7 @@ def step (c : Cl) (line : String) : Cl × String :=
        if c.nodes.size ≠ 0 ∨ n < 1 ∨ n > 5 then (c, "bad-op") else
        let nc := rest.filterMap fun a => if a.startsWith "nc=" then (a.drop 3).toString.toNat? else none
        ({ c with nodes := (Array.range n).map fun i => { cand := !nc.contains i } }, "ok"))
-  | "n" :: k :: rest =>
-    if rest.isEmpty then (c, "bad-op") else
-    (match k.toNat? >>= fun k => c.nodes[k]?.map fun n => (k, n) with
-     | none => (c, "bad-op")
-     | some (k, n) =>
-       if !n.up then (c, "down") else
-       -- would the primary accept a transaction forwarded by this node now?
-       let okRemote : Bool := match c.holder, c.halt, n.remoteId with
-         | some p, some (hp, hid, _, _, _), some rid => p == hp && hid == rid && n.net
-         | _, _, _ => false
-       let (e, o) := EngineD.step { n.eng with remoteOK := okRemote } (" ".intercalate rest)
-       let e := stamp e n.ident
-       let c := c.setNode k { n with eng := e }
-       -- a commit under the remote halt lock was sent to the primary before it was finalised
-       if n.eng.remoteHalt && e.ltx.length > n.eng.ltx.length then
-         match c.holder, e.ltx.getLast? with
-         | some p, some f =>
-           (match c.nodes[p]? with
-            | some pn =>
-              let pe := match receiveTx pn.eng f with | .ok x => x | .error (x, _) => x
-              (settle (c.setNode p { pn with eng := pe }), o)
-            | none => (c, o))
-         | _, _ => (c, o)
-       -- a commit on the primary is streamed to the connected replicas at once
-       else if c.holder == some k && (e.posTxid != n.eng.posTxid || e.posChk != n.eng.posChk) && c.pending.isNone then (settle c, o)
-       else (c, o))
+  | "n" :: k :: rest => nodeOp c k rest
   | ["up", k] =>
     (match k.toNat? >>= fun k => c.nodes[k]?.map fun n => (k, n) with
      | none => (c, "bad-op")
@@ -268,7 +273,7 @@ def step (c : Cl) (line : String) : Cl × String :=
        match r with
        | none => (c, "err open")
        | some e =>
-         (settle ({ c with nextIdent := c.nextIdent + 1 }.setNode k { n with eng := e, up := true, net := true, ident := c.nextIdent, lease := none, pctx := none, remoteId := none }), "ok"))
+         (settle ({ c with nextIdent := c.nextIdent + 1 }.setNode k { n with eng := e, up := true, net := true, ident := c.nextIdent, lease := none, pctx := none, impCtx := none, remoteId := none }), "ok"))
   | ["down", k] =>
     (match k.toNat? >>= fun k => c.nodes[k]?.map fun n => (k, n) with
      | none => (c, "bad-op")
@@ -277,7 +282,7 @@ def step (c : Cl) (line : String) : Cl × String :=
        -- Store.Close: the lease monitor leaves its role loop and recovers once more
        let (sv, _) := Lease.release c.svc k n.lnode
        let wasHolder := c.holder = some k
-       let c := (c.withSvc sv).setNode k { n with up := false, lease := none, pctx := none, eng := recoverEng { n.eng with primary := false } }
+       let c := (c.withSvc sv).setNode k { n with up := false, lease := none, pctx := none, impCtx := none, eng := recoverEng { n.eng with primary := false } }
        let c := if wasHolder then c.recoverOthers k else c
        (settle c, "ok"))
   | ["allow", k] =>
@@ -286,7 +291,7 @@ def step (c : Cl) (line : String) : Cl × String :=
      | some k =>
        if k < -1 ∨ k ≥ c.nodes.size then (c, "bad-op") else
        (settle { c with allow := if k < 0 then none else some k.toNat }, "ok"))
-  | ["demote", k] =>
+  | ["demote", k] | ["demote-nowait", k] =>
     (match k.toNat? >>= fun k => c.nodes[k]?.map fun n => (k, n) with
      | none => (c, "bad-op")
      | some (k, n) =>
@@ -354,7 +359,7 @@ def step (c : Cl) (line : String) : Cl × String :=
      | some (k, n) =>
        if !n.up then (c, "bad-op") else
        let wasHolder := c.holder = some k
-       let c := c.setNode k { n with up := false, lease := none, pctx := none, eng := { n.eng with primary := false } }
+       let c := c.setNode k { n with up := false, lease := none, pctx := none, impCtx := none, eng := { n.eng with primary := false } }
        let c := if wasHolder then { c.recoverOthers k with holder := none, events := c.events ++ ["expire"] } else c
        (settle c, "ok"))
   | ["snap-arm", k] =>
@@ -436,6 +441,25 @@ def step (c : Cl) (line : String) : Cl × String :=
           let c := c.setNode k { kn with lease := l, eng := { recoverEng kn.eng with primary := true } }
           (settle c, "ok"))
      | _, _ => (c, "bad-op"))
+  -- an import request (POST /import) that has to wait for the write lock: it carries a context
+  -- scoped to the node's current term as primary; `import-join` is its answer once the lock is free
+  | ["import-bg", k, d] =>
+    (match k.toNat? >>= fun k => c.nodes[k]?.map fun n => (k, n) with
+     | none => (c, "bad-op")
+     | some (k, n) =>
+       if !n.up then (c, "bad-op") else
+       (c.setNode k { n with impCtx := some (n.lease.isSome, d) }, s!"started pos={n.eng.posTxid}:{EngineD.hex16 n.eng.posChk}"))
+  | ["import-join", k] =>
+    (match k.toNat? >>= fun k' => c.nodes[k']?.map fun n => (k', n) with
+     | none => (c, "bad-op")
+     | some (k', n) =>
+       (match n.impCtx with
+        | none => (c, "bad-op")
+        | some (alive, d) =>
+          let c := c.setNode k' { n with impCtx := none }
+          let (c, o) := if alive ∧ n.up then nodeOp c k ["import", d] else (c, "refused")
+          let e := ((c.nodes[k']?).getD n).eng
+          (c, s!"{if o == "ok" then "ok" else "refused"} pos={e.posTxid}:{EngineD.hex16 e.posChk}")))
   | ["pctx-take", k] =>
     (match k.toNat? >>= fun k => c.nodes[k]?.map fun n => (k, n) with
      | none => (c, "bad-op")
